@@ -308,6 +308,10 @@ def gen_model_raw(rng, *, max_periods=3, allow_stochastic=True, allow_filter=Tru
     if rng.random() < 0.2:
         pool.append("_period")
     body = X.gen_num(rng, pool + pars, 3)
+    # a function that takes the OUTPUT of a deterministic transition function as argument
+    det_next = [f["name"] for f in funcs if f["name"].startswith("next_") and not f["stochastic"]]
+    if det_next and ("next_arg" in force or rng.random() < 0.1):
+        body = ["+", body, ["*", X.c(Fraction(rng.choice([1, 2, -1]), 2)), X.v(rng.choice(det_next))]]
     used_now = X.names_in(body) | mentioned
     for aname in aux:
         if aname not in used_now:
